@@ -7,7 +7,7 @@
        yet, its place in the job queue, or the worker that received it;
      - map entries, predecessors and queued ids are allocated; queued jobs are distinct and incomplete.
    Everything here is independent of the vector-clock monitor. *)
-From Got Require Import Base ListAux Cache CacheProofs CacheSteps CacheStepsProofs RaceCache.
+From Got Require Import Base ListAux Race Cache CacheProofs CacheSteps CacheStepsProofs RaceCache.
 Local Open Scope nat_scope.
 
 (* ------------------------------------------------------------------ the real effect of a thread step *)
@@ -203,23 +203,23 @@ Proof.
 Qed.
 
 (* a step of the machine, seen through memory, mutex and pcs *)
-Inductive rc_stepview (cfg : c_cfg) (s s' : cs_state) : cs_item -> Prop :=
-| RvNone it : s' = s -> rc_stepview cfg s s' it
+Inductive rc_stepview (cfg : c_cfg) (s s' : cs_state) : cs_item -> list rc_ev -> Prop :=
+| RvNone it : s' = s -> rc_stepview cfg s s' it []
 | RvTick dt :
     c_futs (cs_m s') = c_futs (cs_m s) -> c_map (cs_m s') = c_map (cs_m s) ->
     c_queue (cs_m s') = c_queue (cs_m s) -> cs_lock s' = cs_lock s ->
-    (forall j, rc_pcof s' j = rc_pcof s j) -> rc_stepview cfg s s' (CsTick dt)
+    (forall j, rc_pcof s' j = rc_pcof s j) -> rc_stepview cfg s s' (CsTick dt) []
 | RvStep tid t pc' :
     nth_error (cs_thr s) tid = Some t -> cs_blocked s t = false -> ct_op t <> None ->
     (cs_m s', cs_lock s', pc') = rc_eff cfg (cs_m s) (cs_lock s) tid (ct_pc t) ->
     (forall j, rc_pcof s' j = rc_updpc (rc_pcof s) tid pc' j) ->
-    rc_stepview cfg s s' (CsRun tid)
+    rc_stepview cfg s s' (CsRun tid) (rc_label cfg (cs_m s) (ct_pc t))
 | RvStart tid t op rest pc' :
     nth_error (cs_thr s) tid = Some t -> cs_blocked s t = false -> ct_op t = None ->
     ct_prog t = op :: rest ->
     (cs_m s', cs_lock s', pc') = rc_eff_start (cs_m s) (cs_lock s) op ->
     (forall j, rc_pcof s' j = rc_updpc (rc_pcof s) tid pc' j) ->
-    rc_stepview cfg s s' (CsRun tid).
+    rc_stepview cfg s s' (CsRun tid) (rc_label_start (cs_m s) op).
 
 Lemma rc_note_pcof cfg g s j :
   option_map ct_pc (nth_error (map (cs_note cfg g) (cs_thr s)) j) = rc_pcof s j.
@@ -229,9 +229,10 @@ Qed.
 
 Lemma rc_step_view cfg s it :
   let s' := fst (cs_step CsFixed cfg s it) in
-  rc_stepview cfg s s' it /\ length (cs_thr s') = length (cs_thr s) /\ (rc_idle_inv s -> rc_idle_inv s').
+  rc_stepview cfg s s' it (rc_events cfg s it) /\ length (cs_thr s') = length (cs_thr s) /\
+  (rc_idle_inv s -> rc_idle_inv s').
 Proof.
-  cbv zeta. destruct it as [tid|dt]; cbn [cs_step].
+  cbv zeta. unfold rc_events, rc_events_gen. destruct it as [tid|dt]; cbn [cs_step].
   - destruct (nth_error (cs_thr s) tid) as [t|] eqn:Ht; [|split; [apply RvNone|split]; auto].
     destruct (cs_blocked s t) eqn:Hb; [split; [apply RvNone|split]; auto|].
     destruct (ct_op t) as [op|] eqn:Hop.
